@@ -135,8 +135,11 @@ fn main() {
             println!("{}", serde_json::json!({"prop": prop, "build": build_tag(), "events": events, "bytes": bytes, "stats": stats}));
         }
         "concworker" => {
-            let variant: u64 = pos.first().expect("variant").parse().expect("variant number");
-            gen_tf::conc_worker(variant, &o);
+            let what = pos.first().expect("variant").clone();
+            match what.parse::<u64>() {
+                Ok(variant) => gen_tf::conc_worker(variant, &o),
+                Err(_) => gen_color::conc_worker(&what, &o),
+            }
         }
         "c13worker" => {
             let batch = pos.first().expect("batch").clone();
